@@ -116,6 +116,17 @@ CHECKS = {
     note="The race detector only sees executed interleavings. Trusted: TLC, Go race detector, recorder order.",
     technique="TLA+ vector-clock model (design) + race-detector runs and TLC validation of recorded status reports",
     design="4 C17"),
+ "C18": dict(
+    level="exploration",
+    text="Body.tla (scaled wrap/token constants) is model-checked for TextPreserved and CRLFAndBound over all texts up to a bound and "
+         "exhibits the named deviations ScannerGivesUp / SplitInsideRune. TLC enumerates shape descriptors (runs of ascii/wide/mixed "
+         "characters x length classes around 998 and 65536 x terminators); the harness expands them with the real constants, calls "
+         "the real SetBody and the projection's predicates (CRLF only, longest line, text preserved modulo CR/LF in Latin-1, Body "
+         "header = stored length, Body() accessor) are judged by BodyTrace.tla.",
+    note="The predicate is computed by the projection in the harness; the TLA+ layer supplies the case analysis and the design "
+         "argument (thin, claimed as exploration). Trusted: TLC, the projection.",
+    technique="TLA+ step-machine model (design, deviations) + TLC-enumerated shape plan executed on real code",
+    design="4 C18"),
 }
 
 NOT_YET = "check not built yet (work in progress; see DESIGN.md section 8 for the build order)"
